@@ -3,7 +3,7 @@ import itertools
 import common
 from common import cN, cZ, cnat, cbool, clist, copt, cpair
 
-PROOF_FILES = ['Proofs/Partition.v']
+PROOF_FILES = ['Proofs/Partition.v', 'Proofs/StateAxesMeta.v']
 ASSUMPTIONS = [
     'jnp.stack / lax.scan / jax.vmap place the new axis at the (normalised) declared position (modelled as stack_shape)',
     'the mesh context is absent (no global mesh): unbox applies no sharding constraint',
@@ -154,6 +154,37 @@ def run(chk):
     else:
       continue
     chk.violation('oracle', 'nnx.%s, StateAxes filters in the order %s: %s' % (c['form'], c['order'], what), {'case': c, 'observed': r, 'expected_created': want_created, 'expected_inside': want_inside})
+  # the same cases against Model/StateAxesMeta.v: which substate gets the partition name added (creation) / removed (use) at which axis
+  sa_rows = []
+  FID = {'Param': 1, 'BatchStat': 2, 'Intermediate': 3}
+  for c, o in zip(sa_cases, results[3]['stateaxes']):
+    if 'ok' not in o:
+      continue
+    r = o['ok']
+    order = {'int_first': ['Param', 'BatchStat', 'Intermediate'], 'int_last': ['BatchStat', 'Intermediate', 'Param'], 'int_middle': ['BatchStat', 'Param', 'Intermediate']}[c['order']]
+    code = lambda ident, names, base: ident + 100 * (names.index('L') + 1) if names is not None and 'L' in names else ident
+    ax = lambda f, other: '(SAInt %s)' % common.cZ(c['k']) if f == 'Param' else ('SACarry' if other == 'carry' else 'SANone')
+    ids = common.clist([common.cZ(FID[f]) for f in order])
+    # creation under vmap(out_axes=StateAxes): one substate per filter, add_axis
+    seen = {'Param': code(1, r['created']['w_names'], None), 'BatchStat': code(2, r['created']['s_names'], None), 'Intermediate': 3}
+    sa_rows.append((c, r, '(list_beq Z.eqb (update_meta Z axf %s %s) %s)' % (ids, common.clist([ax(f, None) for f in order]), common.clist([common.cZ(seen[f]) for f in order]))))
+    # use: remove_axis inside the transform; the Param counts as treated at axis k when its names are the unstacked ones again
+    w_in = r['inside']['w'][1]
+    w_code = 1 + 100 * (c['k'] + 1) if w_in == ['din', 'dout'] else (1 if 'L' in (w_in or []) else -1)
+    s_in = r['inside']['s'][1]
+    s_code = 2 if s_in == (['dout'] if c['annotate_stat'] else None) else -2
+    axes = common.clist([ax(f, c['other']) for f in order])
+    if c['form'] == 'vmap':
+      seen2 = {'Param': w_code, 'BatchStat': s_code, 'Intermediate': 3}
+      sa_rows.append((c, r, '(list_beq Z.eqb (update_meta Z axf %s %s) %s)' % (ids, axes, common.clist([common.cZ(seen2[f]) for f in order]))))
+    else:
+      sa_rows.append((c, r, '(list_beq Z.eqb (update_meta Z axf (scan_states Z %s %s 0%%Z) %s) %s)' % (ids, axes, axes, common.clist([common.cZ(w_code)]))))
+  sbad = common.coq_mismatches('c19_stateaxes', 'From Flaxm Require Import Lib.Harness Model.StateAxesMeta.\nOpen Scope Z_scope.\n'
+                               'Definition axf (s k : Z) : Z := s + 100 * (k + 1).\nDefinition chk (b : bool) : bool := b.\n', [x[2] for x in sa_rows], 'chk', shard=200)
+  for i in sbad[:6]:
+    chk.violation('correspondence', 'Model/StateAxesMeta.v and nnx transform_metadata disagree on which substate of a StateAxes gets the partition name at which axis (C19_stateaxes_* no longer transfer)',
+                  {'case': sa_rows[i][0], 'observed': sa_rows[i][1]})
+  chk.cov['traces_validated_against_impl'] = chk.cov.get('traces_validated_against_impl', 0) + len(sa_rows)
   for c, o in zip(ma_cases, results[4]['metaaxis']):
     chk.count({'linen_add_metadata_axis': c}, c['p_axis'] != c['s_axis'])
     want = {'kernel': ins(['in', 'out'], c['p_axis'], 'stack'), 'mean': ins(['feat'], c['s_axis'], 'stack')}
@@ -202,7 +233,7 @@ Definition chk (c : Z * Z * N * list (option N) * on * on * on * on) : bool :=
   for i in bad[:8]:
     chk.violation('correspondence', 'Model/Partition.v add_axis/remove_axis and flax (Partitioned / nnx.spmd) disagree; C19_add_axis_aligned etc. no longer transfer',
                   {'case': direct[i], 'observed': dres[i]})
-  chk.cov['traces_validated_against_impl'] = len(coq)
+  chk.cov['traces_validated_against_impl'] = chk.cov.get('traces_validated_against_impl', 0) + len(coq)
 
   # ---- transforms: compare with the model composed over levels (evaluated in Coq) and with the python oracle
   tcoq = []
